@@ -235,6 +235,7 @@ def project_join(log):
         t_tid = None
         done = False
         alive = False
+        j_will_block = False
         for ev in evs:
             t = ev["t"]
             if t == "E" and ev["kind"] in (1, 4) and ev["p1"] == tname:
@@ -244,7 +245,7 @@ def project_join(log):
                         res.append((tname, lines))
                     lines = ["new"]
                     junit = jtid = t_tid = jfutex = None
-                    in_join = t_exiting = done = t_term = link_seen_set = False
+                    in_join = t_exiting = done = t_term = link_seen_set = j_will_block = False
                 alive = True          # (re)creation of the descriptor named tname
                 continue
             if not alive:
@@ -296,6 +297,7 @@ def project_join(log):
                 if name == tname and off == o_req and op == "for" and ev["a"] == 1:
                     if jside:
                         lines.append("jFetchOr %d" % (ev["cur"] & 1))
+                        j_will_block = (ev["cur"] & 1) == 0
                     else:                          # the target itself, or a scheduler cancelling it
                         if not t_exiting:
                             t_exiting = True
@@ -329,8 +331,11 @@ def project_join(log):
                             lines.append("tResume")
                             ext_resumed = True
                         lines.append("jLoadState %d" % (1 if ev["cur"] == 3 else 0))
-                elif in_join and junit and name == junit and off == o_state and op == "store" and ev["a"] == 2:
+                elif in_join and junit and name == junit and off == o_state and op == "store" and ev["a"] == 2 and j_will_block:
+                    # (the joiner's BLOCKED store belongs to the hand-shake it has just won: with ABT_thread_join_many /
+                    # free_many several targets are "being joined" by the same caller, one after the other)
                     lines.append("jStoreBlocked")
+                    j_will_block = False
         if done:
             res.append((tname, lines))
     return res
